@@ -11,7 +11,7 @@ open Irismod.Sdk Irismod.GoSem
 
 theorem tokenfee_all_translated : Irismod.Gen.PureTokenFee.untranslated = [] := rfl
 theorem tokenfee_translated_pinned : Irismod.Gen.PureTokenFee.translated =
-    ["GetTokenMintFee_mintFee_1", "feeHandler_communityTaxCoin_1", "calcFeeByBase_actualFee_1"] := rfl
+    ["MintToken_precision_1", "MintToken_mintableAmt_1", "MintToken_guard_1", "MintToken_guard_2", "MintToken_guard_3", "GetTokenMintFee_mintFee_1", "feeHandler_communityTaxCoin_1", "calcFeeByBase_actualFee_1"] := rfl
 
 /-- token: the community tax of a fee (`feeHandler`) is the model's `taxOf`, as a coin of the fee's denomination -/
 theorem token_taxOf_eq_translation (d : String) (fee : Nat) (rate : Dec) :
@@ -38,5 +38,28 @@ theorem token_mint_and_issue_fee_steps (d : String) (fee base : Int) (ratio f : 
     | none => simp only [obind_none, Option.bind_none]
     | some x => simp only [obind_some, Option.bind_some]; cases x.truncateInt <;> simp only [obind_some, obind_none]
   · cases (Dec.ofInt base).quo f <;> simp only [obind_some, obind_none]
+
+/-- `MintToken`: the mintable room `maxSupply · 10^scale − supply` and the rejection `amount > room` are the model's
+cap check `maxSupply · 10^scale < supply + amount` (C09 `CapAlways`), for every token whose cap is inside the
+`sdkmath.Int` range (max ≤ 2^64−1 and scale ≤ 18 always are) -/
+theorem MintToken_cap_eq_model (maxSupply scale supply amount : Nat) (d : String)
+    (hcap : maxSupply * Irismod.Token.pow10 scale < pow2_256) (hs : supply ≤ maxSupply * Irismod.Token.pow10 scale) :
+    (Irismod.Gen.PureTokenFee.MintToken_precision_1 scale >>= fun p =>
+      Irismod.Gen.PureTokenFee.MintToken_mintableAmt_1 maxSupply p supply >>= fun room =>
+      Irismod.Gen.PureTokenFee.MintToken_guard_3 ⟨d, amount⟩ room) =
+      (if Irismod.Token.pow10 scale < pow2_256 then
+        some (decide (maxSupply * Irismod.Token.pow10 scale < supply + amount)) else none) := by
+  unfold Irismod.Gen.PureTokenFee.MintToken_precision_1 Irismod.Gen.PureTokenFee.MintToken_mintableAmt_1
+    Irismod.Gen.PureTokenFee.MintToken_guard_3 NewIntWithDecimal NewIntFromUint64
+  have e : (1 : Int) * (((10 ^ ((scale : Int)).toNat : Nat)) : Int) = ((Irismod.Token.pow10 scale : Nat) : Int) := by
+    simp [Irismod.Token.pow10]
+  rw [e, chkInt_natCast]
+  by_cases hp : Irismod.Token.pow10 scale < pow2_256
+  · have hroom : maxSupply * Irismod.Token.pow10 scale - supply < pow2_256 := by omega
+    simp only [hp, if_true, obind_some, Int_Mul_nat, hcap, Int_Sub_nat _ _ hs, hroom, Int_GT, Int.ofNat_lt]
+    congr 1
+    have : (maxSupply * Irismod.Token.pow10 scale - supply < amount) ↔ (maxSupply * Irismod.Token.pow10 scale < supply + amount) := by omega
+    simp only [this]
+  · simp only [hp, if_false, obind_none]
 
 end Irismod.Props.Tie
